@@ -8,15 +8,24 @@ KINDS = ['Discretizer', 'QuantitativeDiscretizer', 'QualitativeDiscretizer', 'Bi
 
 
 def build(kind, case, cfg):
-    """-> fitted object (raises whatever fit raises)"""
+    """-> fitted object (raises whatever fit raises); cfg['n_jobs'] > 1 runs the parallel branches with an in-process pool that completes in arbitrary order"""
+    if cfg.get('n_jobs', 1) > 1:
+        from rtc.c10_independence import patch_pools, unpatch
+        saved = patch_pools()
+        try: return _build(kind, case, cfg)
+        finally: unpatch(saved)
+    return _build(kind, case, cfg)
+
+
+def _build(kind, case, cfg):
     from AutoCarver.discretizers import Discretizer, QualitativeDiscretizer, QuantitativeDiscretizer, BaseDiscretizer, GroupedList
     vo = zoo.values_orders_arg(case); X, y = case['X'], case['y']
     if kind == 'Discretizer':
         o = Discretizer(quantitative_features=list(case['quantitative']), qualitative_features=list(case['qualitative']), ordinal_features=list(case['ordinal']),
-                        values_orders=vo, min_freq=cfg['min_freq'], copy=True, verbose=False, **zoo.extra_kwargs(cfg))
+                        values_orders=vo, min_freq=cfg['min_freq'], copy=True, verbose=False, n_jobs=cfg.get('n_jobs', 1), **zoo.extra_kwargs(cfg))
         o.fit(X, y); return o
     if kind == 'QuantitativeDiscretizer':
-        o = QuantitativeDiscretizer(quantitative_features=list(case['quantitative']), min_freq=cfg['min_freq'], copy=True, verbose=False, **{k: v for k, v in zoo.extra_kwargs(cfg).items() if k == 'str_nan'})
+        o = QuantitativeDiscretizer(quantitative_features=list(case['quantitative']), min_freq=cfg['min_freq'], copy=True, verbose=False, n_jobs=cfg.get('n_jobs', 1), **{k: v for k, v in zoo.extra_kwargs(cfg).items() if k == 'str_nan'})
         o.fit(X, y); return o
     if kind == 'QualitativeDiscretizer':
         o = QualitativeDiscretizer(qualitative_features=list(case['qualitative']), ordinal_features=list(case['ordinal']), values_orders=vo, min_freq=cfg['min_freq'], copy=True, verbose=False, **zoo.extra_kwargs(cfg))
@@ -63,7 +72,13 @@ def object_specs(rng, n_random, tier, kinds=None, with_tables=True):
     for i in range(n_random):
         case = zoo.random_case(rng, degenerate=(i % 4 == 3), variants=True)
         cfg = dict(rng.choice(zoo.CONFIGS)); cfg['min_freq_mod'] = None
-        if i % 6 == 5: cfg['str_nan'] = 'MISSING'; cfg['str_default'] = 'AUTRES'
+        if i % 6 == 5 or i % 10 == 3: cfg['str_nan'] = 'MISSING'; cfg['str_default'] = 'AUTRES'
+        if i % 5 == 3: cfg['n_jobs'] = 2                                   # parallel branch (run with an in-process pool, see build)
+        if i % 3 == 1:                                                      # training sample with a non-default index (rows of a split): offset or strings
+            idx = [j * 2 + 7 for j in range(len(case['X']))] if i % 2 else ['id%03d' % j for j in range(len(case['X']))]
+            case['X'].index = idx; case['y'].index = idx
+            if case['X_dev'] is not None:
+                idx2 = [j * 2 + 1000 for j in range(len(case['X_dev']))]; case['X_dev'].index = idx2; case['y_dev'].index = idx2
         ks = [k for k in kinds if applicable(k, case)]
         specs.append((rng.choice(ks), case, cfg))
     if 'MulticlassCarver' in kinds:
